@@ -7,7 +7,7 @@ FAMS = ["Noh", "Noh2", "Sedov", "RiemannIG", "Cog1", "Cog2", "Cog4", "Cog5", "Co
 
 
 def run(tier):
-    return relcheck.rel_check("C08", ("UNIT.",), FAMS, ["Unit"], tier, sample={"RiemannGen": 48})     # general-EOS solver: seconds per solve
+    return relcheck.rel_check("C08", ("UNIT.",), FAMS, ["Unit"], tier, sample={"RiemannGen": 48, "RiemannIG": (None, 30000)})     # general-EOS solver: seconds per solve
 
 
 def replay(path):
